@@ -38,6 +38,7 @@ type Driver interface {
 	Shutdown()
 	Name() string
 	ClientID(slot int) string
+	Leaks() []string // after every connection was closed: what is still around
 }
 
 type testDS struct{}
@@ -295,4 +296,14 @@ func (w *HWorld) Shutdown() {
 		s.Close()
 	}
 	synctest.Wait()
+}
+
+// Leaks: after all connections ended nothing of them may remain.
+func (w *HWorld) Leaks() []string {
+	var out []string
+	synctest.Wait()
+	if n := countGoroutines("models.(*Session).StartDispatchFrames"); n != 0 {
+		out = append(out, fmt.Sprintf("%d session frame worker(s) still running", n))
+	}
+	return out
 }
